@@ -19,12 +19,12 @@ Definition cancun_precompiles : list N := [1; 2; 3; 4; 5; 6; 7; 8; 9; 10].
 Definition spec_precompile (a : N) (input : list N) : N * option (list N) :=
   if a =? 4 then (identity_gas (lenN input), Some input) else (0, None).
 Definition cancun : fork :=
-  mk_fork false (fun a => (1 <=? a) && (a <=? 10)) spec_precompile keccak256.
-(* Prague: BLS12-381 precompiles 0x0b..0x11 (EIP-7702 delegations not modelled) *)
+  mk_fork false false (fun a => (1 <=? a) && (a <=? 10)) spec_precompile keccak256.
+(* Prague: BLS12-381 precompiles 0x0b..0x11, EIP-7702 delegation resolution *)
 Definition prague_precompiles : list N := cancun_precompiles ++ [11; 12; 13; 14; 15; 16; 17].
 Definition prague : fork :=
-  mk_fork false (fun a => (1 <=? a) && (a <=? 17)) spec_precompile keccak256.
+  mk_fork false true (fun a => (1 <=? a) && (a <=? 17)) spec_precompile keccak256.
 (* Osaka: + CLZ (EIP-7939), + P256VERIFY at 0x100 *)
 Definition osaka_precompiles : list N := prague_precompiles ++ [256].
 Definition osaka : fork :=
-  mk_fork true (fun a => ((1 <=? a) && (a <=? 17)) || (a =? 256)) spec_precompile keccak256.
+  mk_fork true true (fun a => ((1 <=? a) && (a <=? 17)) || (a =? 256)) spec_precompile keccak256.
